@@ -860,7 +860,7 @@ class HeapFn(cxx2gal.LoopFn):
             ps.append("(%s : hptr)" % g)
         for i, p in enumerate(params):
             if not p.get("name"):       # a parameter the function does not name (and so does not use): callers still pass a value
-                t = self.coqtype_safe(qual(p))
+                t = self.coqtype_safe(qual(p)) if self.cfg.get("unnamed_params") else None
                 if t:
                     ps.append("(unused_%d : %s)" % (i, t))
                 continue
